@@ -1,6 +1,15 @@
 """Per-property metadata used by the runner (levels, explanations)."""
 
 PROPS = {
+    "C04": {
+        "level": "other",
+        "explanation": "conformance to the intents protocol on all paths: must-held protocol lock at every intent "
+                       "access and blob unlink, filter/guard dominance for every unlinked hash, intent-before-"
+                       "publish with a live guard, one continuous hold from apply to delete, container discipline "
+                       "of the intents container decided from its type and mutators",
+        "not_decided": "byte equality of the resolved blob (C06, C18); the step from the protocol rules to the "
+                       "invariant is a paper argument (DESIGN.md C04)",
+    },
     "C05": {
         "level": "other",
         "explanation": "read-path and write-path locksets on all paths: must-held lock classes (incl. caller "
